@@ -48,6 +48,9 @@ WIRING = {
     'group_by': ('Stream', 'group_by', ['GroupBy']),
     'ship_hash': ('JoinStreamShipHash', 'new', ['GroupBy', 'GroupBy']),
     'ship_broadcast_right': ('JoinStreamShipBroadcastRight', 'new', ['OnlyOne', 'All']),
+    # the two-phase keyed aggregations (group_by_reduce / sum / count / avg / min / max are built on it): their output is
+    # a KeyedStream that keyed joins / merges combine with a group_by stream WITHOUT repartitioning
+    'group_by_fold': ('Stream', 'group_by_fold', ['GroupBy']),
 }
 
 
@@ -58,7 +61,7 @@ def _native_wiring(ex, builder):
     L = [(0, 10), (1, 11), (2, 12), (0, 13), (1, 14), (5, 15), (7, 16)]
     R = [(0, 20), (0, 21), (2, 22), (7, 23), (9, 24)]
     par = 3
-    code = ['shuffle', 'broadcast', 'group_by', 'ship_hash', 'ship_broadcast_right'].index(builder)
+    code = ['shuffle', 'broadcast', 'group_by', 'ship_hash', 'ship_broadcast_right', 'group_by_fold'].index(builder)
     args = [par, code, len(L)] + [x for kv in L for x in kv] + [len(R)] + [x for kv in R for x in kv]
     runner, prof = ex.env['native']
     ex.env['native_used'] = True
@@ -76,6 +79,8 @@ def _native_wiring(ex, builder):
         want = sorted('%d:%d' % kv for kv in L for _ in range(par))
     elif builder == 'group_by':
         want = sorted('%d:%d' % (k, sum(1 for kk, _ in L if kk == k)) for k in set(k for k, _ in L))
+    elif builder == 'group_by_fold':
+        want = sorted('%d:%d-%d' % (k, sum(1 for kk, _ in L if kk == k), rv) for k, rv in R if any(kk == k for kk, _ in L))
     else:
         want = []
         for k, lv in L:
@@ -103,7 +108,8 @@ def wiring_harness(w, builder):
         log = []
         lhs = RecStream(log, 'lhs')
         if ty == 'Stream':
-            args = [lhs] + ([KeyOf()] if builder == 'group_by' else [])
+            args = [lhs] + ([KeyOf()] if builder == 'group_by' else []) + \
+                ([KeyOf(), Int('u64', 0), Opaque('local fold'), Opaque('global fold')] if builder == 'group_by_fold' else [])
         else:
             prev = hlib.mk_struct(w, 'JoinStream', lhs=lhs, rhs=RecStream(log, 'rhs'), keyer1=KeyOf(), keyer2=KeyOf(),
                                   _key=Opaque('PhantomData'))
@@ -131,6 +137,16 @@ def wiring_harness(w, builder):
             item = Agg('tuple', None, [deep_copy(key), ex.fresh_int('u64', 'payload%d' % j)])
             i = ex.call_function(index, [Ref([s], 0), Ref([item], 0)])
             idx.append((i, key))
+        if idx:
+            # ... and it is THE crate-wide function of the key (block::group_by_hash, fixed seed): every keyed stream is
+            # partitioned alike, which keyed joins / merges of two KeyedStreams rely on (they do not repartition)
+            gh = [f for f in w.prog.functions if f.name.endswith('group_by_hash') and 'closure' not in f.name]
+            if len(gh) != 1:
+                raise Unsupported('block::group_by_hash not found')
+            ref = ex.call_function(gh[0], [Ref([deep_copy(idx[0][1])], 0)])
+            check(ex, idx[0][0].z() == ref.z(), 'group-by connection is not routed by group_by_hash(key): this keyed stream is '
+                                               'partitioned differently from the others, equal keys of two keyed streams do '
+                                               'not meet on one replica', lambda: sx)
         for i, _ in idx[1:]:
             check(ex, i.z() == idx[0][0].z(), 'the two inputs of the join are routed by different functions of the key: equal '
                                             'keys do not meet on one replica', lambda: sx)
